@@ -94,6 +94,26 @@ NOT_APPLICABLE = {
 PENDING = {}
 
 
+# Added after seed rounds 7-8: each "X only under G" rule also has its converse (DESIGN.md, Changes, "Converse directions").
+TECH_BOTH_WAYS = {
+    'C01': '; the table is extracted from change_state with can_change inlined; must-pass-through rules in both directions '
+           '(every update reaches the table unfiltered, every payload of an active sender reaches apply_many)',
+    'C08': '; exact (zero-split) transition table; payload-order preservation of Notification::to_owned',
+    'C10': '; converse must-pass-through: every own-identity update and every TurnUndead path reaches handle_self_update',
+    'C11': '; converse of the epoch guard: a current-epoch timeout always attempts the update',
+    'C12': '; relay table in both directions (only-if and always), justified-refusal rule for evidence, '
+           'round-starts-iff-target rule',
+    'C13': '; the bump/leave pairing is a path-level rule that follows private functions split off the leaving function; '
+           'a current probe tick always probes',
+    'C15': '; enqueue/consume guards in both directions (queued iff applied and do_broadcast; the piggyback section is '
+           'omitted only for the stated reasons)',
+    'C16': '; accepted-implies-queued; the attachment gate in both directions',
+    'C17': '; the epoch-bump rule of C13 is re-run so that "stale" means "of an earlier epoch"',
+    'C18': '; sender-recorded-before-reaction rule; conflict-direction rule re-run',
+    'C20': '; the bounded flavor refuses only what does not fit',
+}
+
+
 def main():
     checks = []
     claimed = {k: v for k, v in CLAIMED.items() if os.path.exists(os.path.join(VERIF, 'rules', k.lower() + '.py'))}
@@ -109,7 +129,7 @@ def main():
             'engine': 'mirfacts+rules',
             'level_claimed': {'category': 'other', 'text': text, 'design_ref': 'DESIGN.md section ' + ref},
             'level_note': note,
-            'technique': 'static analysis: ' + tech,
+            'technique': 'static analysis: ' + tech + TECH_BOTH_WAYS.get(pid, ''),
         })
     na = [{'property_id': k, 'reason': v} for k, v in sorted({**NOT_APPLICABLE, **pending}.items())]
     m = {
